@@ -947,6 +947,26 @@ func (env *SpecEnv) callExpr(c *ast.CallExpr) (*Val, error) {
 		U.useNonNilCount()
 		env.vc().externals["counting axioms of nonnilcount (a store changes the count by the fill difference; 0 <= count <= length; count == length implies no empty slot; an all-empty window counts 0): assumed by the SMT solvers, proved in Lean 4 + Mathlib for the finite-sum model in /verif/lean/Counting.lean (re-checked by ./check C14 on every run); that the SMT axiom text says the same as the Lean statements is by inspection"] = true
 		return mathInt(sx("nncnt", sel(env.heap(hn, hs), sx("sarr", a.T)), sx("soff", a.T), sx("slen", a.T))), nil
+	case "prefixlen":
+		// prefixlen(s, i): total length of the first i entries of a slice of slices in the current
+		// state (0 for i <= 0): an SMT function of the backing array's contents defined by primitive
+		// recursion (psum a off 0 = 0; psum a off (i+1) = psum a off i + len(a[off+i]) for i >= 0)
+		a, err := arg(0)
+		if err != nil {
+			return nil, err
+		}
+		i, err := arg(1)
+		if err != nil {
+			return nil, err
+		}
+		a = env.rvalue(a)
+		st, ok := a.Typ.Underlying().(*types.Slice)
+		if !ok || a.S != SSlice || U.sortOf(st.Elem()) != SSlice {
+			return nil, fmt.Errorf("prefixlen wants a slice of slices")
+		}
+		hn, hs := U.elemHeapT(st.Elem())
+		U.usePrefixLen()
+		return mathInt(sx("psum", sel(env.heap(hn, hs), sx("sarr", a.T)), sx("soff", a.T), env.rvalue(i).T)), nil
 	case "allocmark":
 		// the allocation high-water mark of the current state: references are handed out in
 		// increasing order, so `x > m` for a mark m taken earlier says x was allocated after that point
